@@ -378,6 +378,11 @@ func writeSegment(ctx context.Context, w http.ResponseWriter, log *slog.Logger, 
 func calcStatusCode(cfg *ResponseConfig, a *asset, segmentPart string, nowMS int) (int, error) {
 	rep, _, err := findRepAndSegmentID(a, segmentPart)
 	if err != nil {
+		if errors.Is(err, errNotFound) {
+			// Not a segment of a representation of the asset (e.g. a generated subtitle segment):
+			// no pattern applies, and the request is answered as usual.
+			return 0, nil
+		}
 		return 0, fmt.Errorf("findRepAndSegmentID: %w", err)
 	}
 
